@@ -125,8 +125,14 @@ fn decode_name(raw: &[u8], utf8: bool) -> String {
 pub fn check_archive(spec: &Spec, bytes: &[u8], lay: &Layout, st: &mut Stats, order: u64, part: &str) {
     st.evals += 1;
     let case = || json!({"kind": "spec", "spec": spec.to_json(), "part": part});
+    // (an archive of 65 537 entries that is read wrongly is wrong 65 537 times: a handful of reports per archive is enough,
+    // and rendering the case once per report is what would take the time)
+    let reported = std::cell::Cell::new(0u32);
     let mut bad = |what: &str, detail: String, st: &mut Stats| {
-        st.viol(format!("{what}/{part}"), detail, case(), order);
+        if reported.get() < 6 {
+            st.viol(format!("{what}/{part}"), detail, case(), order);
+        }
+        reported.set(reported.get() + 1);
     };
     let obs = match observe(bytes, None, 1 << 22) {
         Ok(o) => o,
